@@ -543,7 +543,8 @@ class DiskChopper:
             )
 
         frequency = abs(self.frequency)
-        pulse_frequency = pulse_frequency.to(unit=frequency.unit)
+        # float64 because an integer frequency would be rounded by the unit conversion
+        pulse_frequency = pulse_frequency.to(unit=frequency.unit, dtype='float64')
         quot = frequency / pulse_frequency
         if not _is_int_or_inverse_int(quot, rtol=sc.scalar(1e-8)):
             raise ValueError(
